@@ -6,7 +6,8 @@
 PID=$1; WT=$2; shift 2
 COPY=/var/tmp/mut-$PID/verif
 mkdir -p /var/tmp/mut-$PID/ev
-rsync -a --delete --exclude .git --exclude replays --exclude coverage /verif/ $COPY/ || exit 2
+rsync -a --delete --exclude .git --exclude replays --exclude coverage /verif/ $COPY/; rc=$?
+[ $rc -eq 0 ] || [ $rc -eq 24 ] || exit 2   # 24 = files vanished while other agents build: harmless
 cd $COPY || exit 2
 VERIF_REPO=$WT VERIF_EVIDENCE_DIR=/var/tmp/mut-$PID/ev VERIF_REPLAYS_DIR=/var/tmp/mut-$PID/ev ./check $PID "$@"
 rc=$?
